@@ -69,6 +69,9 @@ CLAIMED["C05"] = dict(level="model_checking", technique=COERCE_TECH, note=COERCE
                       text="(declared leaf type incl. lists and typed slices) x (Go value kind x named point, numeric and non-numeric strings, wrong kinds, nil pointers, Symbol, time.Time): response data after WriteJSONValue + encoding/json must have the shape Coerce!CoerceOut prescribes (null plus one error where it cannot be represented)")
 CLAIMED["C15"] = dict(level="model_checking", technique="TLC enumerates the textual cases (MCPrint.tla: strings over a character-class alphabet at every description and default site, numeric and nested defaults) with the outcome Loader.tla prescribes; each case goes through load / print / load / read-back / print on real roots and through ggqlgen -w/-e", note=SCHEMA_NOTE, design="DESIGN.md §6 C15",
                       text="for every enumerated accepted schema: the printed SDL (whole root and per type) is accepted by a fresh root, reads back as the same canonical schema, and prints to the same text again; ggqlgen -w and -e outputs define the same schema")
+CLAIMED["C07"] = dict(level="model_checking", technique="TLA+ state machine of the reader's position bookkeeping (Scanner.tla) model-checked over all byte-class strings; responses of TLC-enumerated cases in 5 layouts recorded and judged by the TLA+ predicate Envelope!WellFormed (EnvelopeJudge.tla)",
+                      note="Trusted: TLC, the lexeme splitter and skeleton extraction of the harness, encoding/json as the standard JSON parser. Columns are only bounded, not exact.", design="DESIGN.md §6 C07",
+                      text="Scanner.tla: every stamped field position lies on the line of the token's first byte (exhaustive to length 6/8 over 5 byte classes); every recorded response is a well-formed envelope (keys, errors, message, path kinds, positive locations on the line of the offending key's lexeme, null/absent data when refused) and serialises to valid JSON that decodes to the same structure in all three indent modes")
 
 NOT_YET = {
 }
